@@ -209,8 +209,12 @@ class Register(GlobalVar):
             case _:
                 raise ValueError(f"Register {reg_name} has no class assigned.")
 
+        # Letter operands spell a pair by doubling the access letter (Rss, Rdd).
+        # Explicitly numbered registers are pairs only if written with a colon (R1:0): R11 or R22 are single registers.
         is_double = ":" in reg_name or (
-            len(reg_name) > 2 and reg_name[1] == reg_name[2]
+            not self.is_explicit
+            and len(reg_name) > 2
+            and reg_name[1] == reg_name[2]
         )
         if is_double:
             if reg_name[0] == "R":
